@@ -805,11 +805,14 @@ def locked_census(chk, F, rule, config, allow, floor):
                 a0, a1 = e.data[2][0], e.data[2][1]
                 names = field_path(a0)[1]
                 recv_field = names[-1] if names else show(a0)
+                if f.kind == 'closure' and field_path(a0)[0] == ('param', 0, 1) and len(names) == 1:
+                    recv_field = 'captured'      # (a lock the closure captured, whatever the variable is called)
                 c = strip(a1)
                 if c[0] == 'agg' and c[1] == 'closure':
                     closure = c[2]
                 elif c[0] == 'c' and isinstance(c[1], tuple) and c[1] and c[1][0] == 'fn':
-                    fn_item = str(c[1][1])      # a function item handed to `locked` (`locked(core::mem::take)`): the one call made under the lock
+                    from facts import strip_generics
+                    fn_item = strip_generics(str(c[1][1]))      # a function item handed to `locked` (`locked(core::mem::take)`): the one call made under the lock
         if recv_field is None:
             # closure may capture the mutex (e.g. `mutex.locked(..)` inside a returned closure): use the operand type
             recv_field = 'captured'
